@@ -14,6 +14,7 @@ import RbV.Thm.GenSrcSampledGet
 import RbV.Thm.GenSrcOcc
 import RbV.Lemmas.SaisWidth
 import RbV.Gen.SaisWidth
+import RbV.Thm.GenSrcSus
 /-!
 # C03 — suffix array = sorted permutation of all suffixes; LCP; shortest unique substrings
 
@@ -560,5 +561,29 @@ example : ∀ v ∈ (Sais.naming [2, 1, 2, 1, 0] (Sais.tyOf [2, 1, 2, 1, 0]) 2
     { Sais.St.new 5 with pos := Sais.pos1 [2, 1, 2, 1, 0] } rfl (by decide) (by decide) (by decide)).2
 example : ∀ v ∈ Sais.transformText [3, 2, 3, 2, 1], v < 2 ^ 8 :=
   sais_transform_width_fits [3, 2, 3, 2, 1] (by decide) (by decide)
+
+/-! ### translated text of `shortest_unique_substrings` (`RbV/Gen/SrcSus.lean`, regenerated on every run; builder genfmd) -/
+
+/-- translated `shortest_unique_substrings` = mirror model `Sus.susModel`, for every suffix array `pos` (entries `≤ n`) and
+LCP vector of `n + 1` entries in which `max(lcp[i], lcp[i+1])` is never negative (`-1 as usize` would overflow `1 + …`) -/
+theorem sus_source_eq_model (pos : List Nat) (lcp : List Int) (hlen : lcp.length = pos.length + 1)
+    (hn : pos.length + 1 < 2 ^ 63) (hrow : ∀ i, i < pos.length → Thm.GenSrcSus.RowOk pos lcp i) :
+    Gen.SrcSus.sus pos lcp = Rs.Res.ok (Sus.susModel pos lcp) :=
+  Thm.GenSrcSus.sus_eq_model pos lcp hlen hn hrow
+
+/-- **the translated `shortest_unique_substrings` on every accepted suffix array (single sentinel, `n ≥ 2`) and its LCP
+array returns `susRef` at every position** — no mirror model left between the text of the function and the reference -/
+theorem sus_source_exact (t sa : List Nat) (hc : checkSA t sa = true)
+    (hsingle : ∀ p, t[p]? = some (sentinelOf t) → p = t.length - 1)
+    (hmin : ∀ p, p < t.length → sentinelOf t ≤ t.getD p 0) (hn : 2 ≤ t.length) (hsz : t.length + 1 < 2 ^ 62) :
+    Gen.SrcSus.sus sa (lcpRef t sa) = Rs.Res.ok ((List.range t.length).map (susRef t)) :=
+  Thm.GenSrcSus.sus_source_exact t sa (Kasai.sorted_of_checkSA_single t sa hc hsingle hmin) hn hsz
+
+-- the doc-test `GCTGCTA$`: the translated code evaluated
+example : Gen.SrcSus.sus [7, 6, 3, 0, 4, 1, 5, 2] (lcpRef [71, 67, 84, 71, 67, 84, 65, 36] [7, 6, 3, 0, 4, 1, 5, 2])
+    = Rs.Res.ok [some 4, some 3, some 2, some 4, some 3, some 2, some 1, some 1] := by decide
+-- the one-symbol text `$`: `max(-1, -1) as usize` is `usize::MAX`, `1 + …` overflows (panic with overflow checks; the
+-- mirror model, which reads `as usize` of a negative value as 0, says `[some 1]`) — outside `n ≥ 2`
+example : Gen.SrcSus.sus [0] [-1, -1] = Rs.Res.panic := by decide
 
 end RbV.Thm.C03
